@@ -25,18 +25,22 @@ run_demo() { # returns 0 if demo passes
   (cd "$S/repo" && RUSTFLAGS="$flags" CARGO_NET_OFFLINE=true cargo test --offline $feats --target-dir "$S/demo-target" --test seeded_demo >>"$LOG" 2>&1)
 }
 mkdir -p "$S/repo/tests"; cp "$DST/demo.rs" "$S/repo/tests/seeded_demo.rs"
-# pick a configuration in which the demo compiles and passes on the unchanged tree
-DEMO_CFG=""
-for cfg in "|" "--cfg helgoboss_midi_verif|" "|--features serde,serde_repr" "--cfg helgoboss_midi_verif|--features serde,serde_repr" "|--no-default-features"; do
+# configurations in which the demo compiles and passes on the unchanged tree
+OKCFGS=()
+for cfg in "|" "--cfg helgoboss_midi_verif|" "|--features serde,serde_repr" "|--no-default-features" "--cfg helgoboss_midi_verif|--features serde,serde_repr"; do
   flags="${cfg%%|*}"; feats="${cfg##*|}"
-  if run_demo "$flags" "$feats"; then DEMO_CFG="$cfg"; break; fi
+  if run_demo "$flags" "$feats"; then OKCFGS+=("$cfg"); fi
 done
-if [ -z "$DEMO_CFG" ]; then echo "SEED $ID-$K: demo does not pass on the unchanged tree in any configuration" | tee -a "$LOG"; exit 3; fi
-echo "demo passes on the unchanged tree with [$DEMO_CFG]" >> "$LOG"
+if [ ${#OKCFGS[@]} -eq 0 ]; then echo "SEED $ID-$K: demo does not pass on the unchanged tree in any configuration" | tee -a "$LOG"; exit 3; fi
+echo "demo passes on the unchanged tree with: ${OKCFGS[*]}" >> "$LOG"
 if ! git -C "$S/repo" apply "$DST/patch.diff"; then echo "SEED $ID-$K: patch does not apply" | tee -a "$LOG"; exit 3; fi
-flags="${DEMO_CFG%%|*}"; feats="${DEMO_CFG##*|}"
-if run_demo "$flags" "$feats"; then echo "SEED $ID-$K: demo still passes WITH the patch (not a demonstration)" | tee -a "$LOG"; exit 3; fi
-echo "demo fails with the patch" >> "$LOG"
+DEMO_CFG=""
+for cfg in "${OKCFGS[@]}"; do
+  flags="${cfg%%|*}"; feats="${cfg##*|}"
+  if ! run_demo "$flags" "$feats"; then DEMO_CFG="$cfg"; break; fi
+done
+if [ -z "$DEMO_CFG" ]; then echo "SEED $ID-$K: demo still passes WITH the patch in every configuration (not a demonstration)" | tee -a "$LOG"; exit 3; fi
+echo "demo fails with the patch in configuration [$DEMO_CFG]" >> "$LOG"
 rm -f "$S/repo/tests/seeded_demo.rs"
 # existing suite and the other build configurations
 if (cd "$S/repo" && CARGO_NET_OFFLINE=true cargo test --workspace --no-fail-fast --offline --target-dir "$S/baseline-target" >"$S/out/baseline.log" 2>&1); then
